@@ -6,6 +6,7 @@ import SecpZkp.Gen.K_field10x26
 import SecpZkp.Gen.K_scalar4x64
 import SecpZkp.Gen.K_scalar8x32
 import SecpZkp.Gen.F_group
+import SecpZkp.Gen.F_ellswift
 import SecpZkp.Gen.K_int128struct
 /-
   `k_run <set>.<def> <in>* / <out>*` : executes a translated C function (MiniC IR regenerated from the
@@ -67,7 +68,8 @@ def hKRun : Handler
     out : names; field variables print as 64 hex digits (canonical value), integers as hex; `MAG` if a documented
           magnitude precondition is violated on the way
 -/
-def fTable : List (String × FeIR.Fn) := Gen.group.all.map fun p => ("group." ++ p.1, p.2)
+def fTable : List (String × FeIR.Fn) :=
+  (Gen.group.all.map fun p => ("group." ++ p.1, p.2)) ++ (Gen.ellswift.all.map fun p => ("ellswift." ++ p.1, p.2))
 
 def hFRun : Handler
   | fname :: rest => do
@@ -86,7 +88,10 @@ def hFRun : Handler
     | some st =>
       let feNames := st.fe.map (·.1)
       some (join (outs.map fun t =>
-        if feNames.contains t then hx (Bytes.be32 (FeIR.canon (st.fe.get t).val)) else showHex (st.ints.get t 0)))
+        match t.splitOn "?" with
+        | [name, cond] =>     -- `name?cond`: the field variable only if the integer `cond` is non-zero (an output the C function leaves undefined otherwise)
+          if st.ints.get cond 0 ≠ 0 then hx (Bytes.be32 (FeIR.canon (st.fe.get name).val)) else "-"
+        | _ => if feNames.contains t then hx (Bytes.be32 (FeIR.canon (st.fe.get t).val)) else showHex (st.ints.get t 0)))
   | _ => none
 
 def minicHandlers : List (String × Handler) := [("k_run", hKRun), ("f_run", hFRun)]
